@@ -1,21 +1,15 @@
-(* C13 -- functools.partial unwrapping (induction on the nesting), CONVERSION_RULES prefix matching
+(* C13 -- generic lemmas (independent of the generated tables; the per-run side conditions are
+   discharged in the obligation files): functools.partial unwrapping (induction on the nesting), CONVERSION_RULES prefix matching
    (induction on rules and strings), is_unsupported / is_allowlisted against their documentation. *)
 From Coq Require Import List String Ascii Bool Arith Lia.
 Import ListNotations.
-Require Import MV.Policy.PolicySyntax MV.Policy.Policy MV.Policy.Spec MV.Generated.C13_gen.
+Require Import MV.Policy.PolicySyntax MV.Policy.Policy MV.Policy.Spec.
 Require Import MV.Policy.PolicyFinite.
 
 (* ================================================================ functools.partial *)
 Definition merge_correct (ps : partial_spec) : Prop :=
   (forall stored call, new_args ps stored call = stored ++ call) /\
   (forall stored call, new_kwargs ps stored call = kw_update (kw_default stored) (kw_default call)).
-
-Lemma partial_gen_merge_correct : merge_correct partial_gen.
-Proof.
-  split.
-  - intros; unfold new_args; simpl. rewrite app_nil_r; reflexivity.
-  - intros [m|] [u|]; reflexivity.
-Qed.
 
 Lemma partial_unwrap_gen ps : merge_correct ps ->
   forall stops c args okw,
@@ -189,11 +183,10 @@ Proof.
         intros a' p' [H|H]; [injection H as <- <-; exact NM | eapply N; exact H].
 Qed.
 
-Lemma tables_rules_ok : matches_ok matches_gen = true /\ rules_wf rules_gen = true.
-Proof. split; vm_compute; reflexivity. Qed.
+
 (* ================================================================ is_unsupported *)
-Definition unsup_check (u : unsup_sit) : bool :=
-  match first_match (unsup_atoms u) unsupported_gen with
+Definition unsup_check (tbl : list (cond * bool)) (u : unsup_sit) : bool :=
+  match first_match (unsup_atoms u) tbl with
   | Some b => Bool.eqb b (doc_unsupported u) | None => false end.
 Definition fa_unsup (p : unsup_sit -> bool) : bool :=
   fa_bool (fun a => fa_bool (fun b => fa_bool (fun c => fa_bool (fun d => fa_bool (fun e => fa_bool (fun f =>
@@ -205,16 +198,17 @@ Proof.
   apply fa_bool_ok with (b := c) in H; cbv beta in H. apply fa_bool_ok with (b := d) in H; cbv beta in H.
   apply fa_bool_ok with (b := e) in H; cbv beta in H. apply fa_bool_ok with (b := f) in H; exact H.
 Qed.
-Lemma unsupported_spec u : first_match (unsup_atoms u) unsupported_gen = Some (doc_unsupported u).
+Lemma unsupported_sound tbl : fa_unsup (unsup_check tbl) = true ->
+  forall u, first_match (unsup_atoms u) tbl = Some (doc_unsupported u).
 Proof.
-  assert (H : unsup_check u = true) by (apply fa_unsup_ok; vm_compute; reflexivity).
-  unfold unsup_check in H. destruct (first_match (unsup_atoms u) unsupported_gen); [|discriminate].
+  intros A u. assert (H : unsup_check tbl u = true) by (apply fa_unsup_ok; exact A).
+  unfold unsup_check in H. destruct (first_match (unsup_atoms u) tbl); [|discriminate].
   apply Bool.eqb_prop in H; subst; reflexivity.
 Qed.
 
 (* ================================================================ is_allowlisted *)
-Definition allow_check (w : allow_sit) : bool :=
-  match first_match (allow_atoms w) allowlisted_gen with
+Definition allow_check (tbl : list (cond * bool)) (w : allow_sit) : bool :=
+  match first_match (allow_atoms w) tbl with
   | Some b => Bool.eqb b (doc_allowlisted w) | None => false end.
 Definition fa_allow (p : allow_sit -> bool) : bool :=
   fa_bool (fun a1 => fa_rule (fun a2 => fa_bool (fun a3 => fa_bool (fun a4 => fa_bool (fun a5 => fa_bool (fun a6 =>
@@ -233,9 +227,10 @@ Proof.
   apply fa_bool_ok with (b := a13) in H; cbv beta in H. apply fa_bool_ok with (b := a14) in H; cbv beta in H.
   apply fa_bool_ok with (b := a15) in H; cbv beta in H. apply fa_bool_ok with (b := a16) in H; exact H.
 Qed.
-Lemma allowlisted_spec w : first_match (allow_atoms w) allowlisted_gen = Some (doc_allowlisted w).
+Lemma allowlisted_sound tbl : fa_allow (allow_check tbl) = true ->
+  forall w, first_match (allow_atoms w) tbl = Some (doc_allowlisted w).
 Proof.
-  assert (H : allow_check w = true) by (apply fa_allow_ok; vm_compute; reflexivity).
-  unfold allow_check in H. destruct (first_match (allow_atoms w) allowlisted_gen); [|discriminate].
+  intros A w. assert (H : allow_check tbl w = true) by (apply fa_allow_ok; exact A).
+  unfold allow_check in H. destruct (first_match (allow_atoms w) tbl); [|discriminate].
   apply Bool.eqb_prop in H; subst; reflexivity.
 Qed.
